@@ -153,3 +153,9 @@ func init() {
 		Rule: "server-bulk: one case = an element stream (valid/invalid mix, repeated ids, target graphs g1/g2/a missing graph/a schema graph switching back and forth, lengths 0..20 and around the scaled 100-slot hand-off buffer, optional client stream error) sent through the real GripServer.BulkAdd over kvgraph on the simulated disk under a seeded schedule; final observable state must equal refgraph after adding the valid routable elements one at a time in stream order, InsertCount must equal their number, ErrorCount must be >0 iff something was invalid or unroutable. streambatch: util.StreamBatch with batch sizes 1..100 against recording add functions (order and multiplicity per element type, batch size bound, error reporting). non-trivial = at least 2 elements; distinct = distinct (stream, configuration)",
 		Assumptions: []string{"streams containing edges without an id (server generates one) are judged by counts only", "label listings are not compared (recorded C03 findings)", "the per-element policy filter of accounts.BulkWriteFilter is not in the loop (C05 is not claimed)"}}
 }
+
+func init() {
+	props["C06"] = &propCfg{Level: "exploration", QuickRuns: 10000, QuickS: 50, ThoroughRuns: 1000000, ThoroughS: 1500, CrashIsViolation: true,
+		Rule: "one case = one hostile request against a real GripServer on an empty or small populated graph: Traversal/Submit with a typed program into which hostile steps are spliced (condition values of every JSON kind for every operator incl. missing values and unknown operators, references to undefined marks, empty/duplicate/unnamed/zero-interval/NaN aggregations, negative and inverted ranges, *Null steps followed by anything, jumps to missing marks, empty statements, nil expressions), ResumeJob with hostile extensions, AddVertex/AddEdge with nil or empty elements, BulkAdd streams alternating existing/missing/schema graphs with nil elements, and 19 other handlers on existing/missing/empty/schema graph names; each under a seeded schedule. A panic reaching the top of any goroutine, or a dead worker process, is the violation. distinct = distinct requests",
+		Assumptions: []string{"grpc-go does not recover handler panics and the repository has no recover(): a panic on any goroutine terminates the server", "requests that merely never finish are not judged here (C07/C12)"}}
+}
